@@ -154,11 +154,11 @@ Proof.
   assert (Hp : Forall (mterm_ok n mL) prods).
   { unfold prods. apply Forall_forall. intros ab' Hin. apply in_map_iff in Hin. destruct Hin as (ab & <- & _).
     split; apply (V_to_monty n m m_range Hodd). }
-  destruct (lincomb_fixed_correct n mL (mg_neg_inv m) (mg_lz n m) HmL eq_refl Hn Hnw Hni m_pos Hlz Hlzm dbg prods Hp)
+  destruct (lincomb_fixed_correct n mL (mg_neg_inv m) (mg_lz n m) HmL eq_refl Hn Hni m_pos Hlz Hlzm dbg prods Hp)
     as (z & Hz & Hzm & Hzc).
   assert (Hsel : (if boxed then lincomb_boxed else lincomb_fixed) dbg prods mL (mg_neg_inv m) (mg_lz n m) = Some z).
   { destruct boxed; [|exact Hz].
-    rewrite (lincomb_boxed_correct n mL (mg_neg_inv m) (mg_lz n m) HmL eq_refl Hn Hnw Hni m_pos Hlz Hlzm dbg prods Hp). exact Hz. }
+    rewrite (lincomb_boxed_correct n mL (mg_neg_inv m) (mg_lz n m) HmL eq_refl Hn Hni m_pos Hlz Hlzm dbg prods Hp). exact Hz. }
   fold prods. rewrite Hsel. apply api_out_spec; [exact Hzm|].
   destruct (mg_rinv_spec n m m_pos Hodd) as [_ Hr].
   unfold PowLadderP.V. rewrite <- lin_sum_map. fold prods.
@@ -168,4 +168,8 @@ Proof.
     rewrite <- (mulmod_r (eval z * rinv) (R * rinv)), Hr, mulmod_r, Z.mul_1_r. reflexivity.
   - rewrite <- (mulmod_l (eval z * R)), Hzc, mulmod_l. reflexivity.
 Qed.
+(** the runtime / compile-time implementation and the boxed one return the same limbs *)
+Corollary api_lincomb_agree dbg terms : terms <> [] -> Forall (fun ab => wf (fst ab) /\ wf (snd ab)) terms ->
+  api_lincomb true dbg mL terms = api_lincomb false dbg mL terms.
+Proof. intros Hne Ht. rewrite !api_lincomb_correct by assumption. reflexivity. Qed.
 End Api.
